@@ -1,4 +1,4 @@
-//go:build verif
+//go:build verif && shim_timecache
 
 package timecache
 
